@@ -166,6 +166,13 @@ def run_case(w, prog, db, dbname, dialect, src=None, want_rq=True, user_names=No
         keep = [i for i, c in enumerate(act) if c not in gen_extra]
         act = [act[i] for i in keep]
         rows = [tuple(r[i] for i in keep) for r in rows]
+        named_exp = [n for n in exp if n is not None]
+        if has_wild and len(set(named_exp)) < len(named_exp):
+            # with repeated names in a wildcard frame a generated name may stand for a frame column
+            # (t1.id AS _expr_0) while a wildcard repeats another one: which result column is which
+            # cannot be told by name and count, so the rows are not judged
+            o.status = "unalignable"
+            aligned = False
     elif len(act) != len(exp):
         o.symptoms.append(("C05", "column_count", "frame %r result %r" % (exp, act)))
         aligned = False
